@@ -72,8 +72,11 @@ func (w *ShardWorld) Reopen() error {
 
 // EvictCaches drops the shared caches of this shard (explicit Release).
 func (w *ShardWorld) EvictCaches() {
-	w.CM.Release(w.Path)
-	// caches are registered under "<dbFile>/index/..." names; Release(dbFile) is what Shard.Close uses
+	w.CM.Release(w.Path) // what Shard.Close uses
+	// shared caches are registered under "<dbFile>/index/<type>/<property>"
+	for name, sv := range w.Col.IndexSchema {
+		w.CM.Release(w.Path + "/index/" + sv.Type + "/" + name)
+	}
 }
 
 // ColdCopy opens a fresh shard (fresh cache manager) on a copy of the database
